@@ -40,6 +40,15 @@ enum { VIA_NONE = 0, VIA_VALUE = 1, VIA_UUID = 2 };
 const char* const kind_name[] = { "notification", "indication" };
 const char* const via_name[]  = { "none", "by-value", "by-uuid" };
 
+// notify< UUID >() / indicate< UUID >() address the *first* characteristic with that UUID ( documented in server.hpp ) and
+// there is no way to name a later one, so a by-UUID request exists for k only if no earlier characteristic has k's UUID
+constexpr bool uuid_request_possible( int k, int kind_bit ) { return kinds::uuid_of( k ) == k && ( kinds::of( k ) & kind_bit ) != 0; }
+inline bool uuid_is_duplicated( int k )
+{
+    for ( int j = 0; j != N; ++j ) if ( j != k && kinds::uuid_of( j ) == kinds::uuid_of( k ) ) return true;
+    return false;
+}
+
 // ---- reference model ------------------------------------------------------------------------------------------------------
 // It knows nothing about queue positions or priorities: a request marks (kind, k) pending on every connection; a PDU has to
 // belong to a pending request of a connection that is subscribed for that kind and to carry k's handle and current value.
@@ -52,6 +61,7 @@ struct Ref
     std::uint8_t how[ 2 ][ 8 ];     // how (kind, k) was requested last
     std::uint8_t nreq[ 2 ][ 8 ];    // requests since the last PDU of (kind, k), saturating at 2 (classes only)
     std::uint8_t misrouted;         // VIA_*: a request was filed under the queue index of another characteristic (diagnosis only)
+    std::uint8_t misrouted_dup;     // ... and the UUID of the requested characteristic exists twice
     std::uint8_t toggle;            // values are initial ^ ( toggle ? 0x80 : 0 )
 };
 
@@ -64,7 +74,8 @@ struct Model
 
     std::string suffix() const
     {
-        return ref.misrouted ? mc::fmt( "wrong-characteristic-notified:queue-index-of-other-characteristic:%s-request", via_name[ ref.misrouted ] ) : std::string();
+        return ref.misrouted ? mc::fmt( "wrong-characteristic-notified:queue-index-of-other-characteristic:%s-request%s", via_name[ ref.misrouted ],
+                                        ref.misrouted_dup ? "-duplicated-uuid" : "" ) : std::string();
     }
     void fail( mc::Ctx& ctx, const std::string& sig, const std::string& detail ) const
     {
@@ -79,8 +90,11 @@ struct Model
         for ( int c = 0; c != NC; ++c ) { waiting = waiting || ref.pend[ c ][ kind ][ k ] == P_YES; ref.pend[ c ][ kind ][ k ] = P_YES; }
         ref.nreq[ kind ][ k ] = waiting ? 2 : 1;
         ref.how[ kind ][ k ] = std::uint8_t( via );
-        const bool mis = queue_index < 0 || queue_index >= N || char_of_queue_index[ queue_index ] != k;
-        if ( mis && !ref.misrouted ) ref.misrouted = std::uint8_t( via );
+        // the diagnosis needs a sane "queue index -> characteristic" experiment; if output itself is broken the symptoms speak
+        bool sane = true;
+        for ( int q = 0; q != N; ++q ) sane = sane && char_of_queue_index[ q ] >= 0;
+        const bool mis = sane && ( queue_index < 0 || queue_index >= N || char_of_queue_index[ queue_index ] != k );
+        if ( mis && !ref.misrouted ) { ref.misrouted = std::uint8_t( via ); ref.misrouted_dup = via == VIA_UUID && uuid_is_duplicated( k ); }
         ctx.cls( mc::fmt( "request %s %s%s", kind_name[ kind ], via_name[ via ], mis ? " (other queue index than the characteristic's)" : "" ) );
     }
 
@@ -91,7 +105,12 @@ struct Model
         if ( n < 3 || ( att[ 0 ] != 0x1B && att[ 0 ] != 0x1D ) ) { fail( ctx, "malformed-pdu:opcode-or-length", "output " + raw ); return false; }
         const int kind = att[ 0 ] == 0x1B ? KN : KI;
         const int k = lay::by_value_handle( std::uint16_t( att[ 1 ] | ( att[ 2 ] << 8 ) ) );
-        if ( k < 0 ) { fail( ctx, "pdu-with-handle-of-no-value-attribute", "output " + raw ); return false; }
+        if ( k < 0 )
+        {
+            const std::uint16_t h = std::uint16_t( att[ 1 ] | ( att[ 2 ] << 8 ) );
+            fail( ctx, "pdu-with-handle-of-no-value-attribute", mc::fmt( "output %s: handle 0x%04x is a %s", raw.c_str(), h, lay::classify( h ) ) );
+            return false;
+        }
         if ( !( kinds::of( k ) & ( 1 << kind ) ) )
         {
             fail( ctx, mc::fmt( "pdu-kind-not-offered-by-characteristic:%s", kind_name[ kind ] ), mc::fmt( "%s for characteristic %d: %s", kind_name[ kind ], k, raw.c_str() ) );
@@ -165,9 +184,9 @@ std::vector< Ev > make_events( bool ll )
                 v.push_back( Ev{ E_SUB, c, k, b } );
             }
     for ( int k = 0; k != N; ++k ) if ( kinds::of( k ) & 1 ) v.push_back( Ev{ E_NOTIFY_VAR, 0, k, 0 } );
-    for ( int k = 0; k != N; ++k ) if ( kinds::of( k ) & 1 ) v.push_back( Ev{ E_NOTIFY_UUID, 0, k, 0 } );
+    for ( int k = 0; k != N; ++k ) if ( uuid_request_possible( k, 1 ) ) v.push_back( Ev{ E_NOTIFY_UUID, 0, k, 0 } );
     for ( int k = 0; k != N; ++k ) if ( kinds::of( k ) & 2 ) v.push_back( Ev{ E_IND_VAR, 0, k, 0 } );
-    for ( int k = 0; k != N; ++k ) if ( kinds::of( k ) & 2 ) v.push_back( Ev{ E_IND_UUID, 0, k, 0 } );
+    for ( int k = 0; k != N; ++k ) if ( uuid_request_possible( k, 2 ) ) v.push_back( Ev{ E_IND_UUID, 0, k, 0 } );
     for ( int c = 0; c != NC; ++c ) v.push_back( Ev{ E_POLL, c, 0, 0 } );
     for ( int c = 0; c != NC; ++c ) v.push_back( Ev{ E_CONFIRM, c, 0, 0 } );
     v.push_back( Ev{ E_CHANGE, 0, 0, 0 } );
@@ -201,9 +220,9 @@ template < class S, int K > struct uuid_call
     template < int I > static bool i( S&, std::false_type )   { return false; }
 };
 template < class S > struct notify_uuid_f
-{ S& s; bool r; template < int I > void call() { r = uuid_call< S, 0 >::template n< I >( s, std::integral_constant< bool, ( kinds::of( I ) & 1 ) != 0 >() ); } };
+{ S& s; bool r; template < int I > void call() { r = uuid_call< S, 0 >::template n< I >( s, std::integral_constant< bool, uuid_request_possible( I, 1 ) >() ); } };
 template < class S > struct indicate_uuid_f
-{ S& s; bool r; template < int I > void call() { r = uuid_call< S, 0 >::template i< I >( s, std::integral_constant< bool, ( kinds::of( I ) & 2 ) != 0 >() ); } };
+{ S& s; bool r; template < int I > void call() { r = uuid_call< S, 0 >::template i< I >( s, std::integral_constant< bool, uuid_request_possible( I, 2 ) >() ); } };
 
 template < class S >
 bool do_request( S& s, const Ev& e )
@@ -238,7 +257,9 @@ void learn_request_indices()
         {
             g_probe_last = -1;
             const bool is_ind = t >= 2;
-            if ( kinds::of( k ) & ( is_ind ? 2 : 1 ) ) do_request( probe, Ev{ ev_kind( E_NOTIFY_VAR + t ), 0, k, 0 } );
+            const bool by_uuid = t == 1 || t == 3;
+            if ( by_uuid ? uuid_request_possible( k, is_ind ? 2 : 1 ) : ( kinds::of( k ) & ( is_ind ? 2 : 1 ) ) != 0 )
+                do_request( probe, Ev{ ev_kind( E_NOTIFY_VAR + t ), 0, k, 0 } );
             g_request_queue_index[ t ][ k ] = g_probe_last;
         }
 }
